@@ -72,6 +72,11 @@ chk("C12", "exploration", "E2-input-enumerator",
     "Every public function of codec::*, validation, api and fragmented is called on exhaustively enumerated small inputs (all short byte strings, all strings over per-parser boundary alphabets, all AV1 header payloads of a fixed bit length, one- and two-deviation neighbourhoods of valid exemplars) and, for the stateful types, with every argument tuple over boundary alphabets in every lifecycle state; creation times up to u64::MAX run in child processes with a time limit. The build has overflow checks and debug assertions enabled; any unwind or stall is a violation.",
     "Trusted base: catch_unwind observes every panic (panic=unwind profile); allocation failure is out of scope. Functions documented to panic (assert_invariant!(false), contract_test) are exempt.", "DESIGN.md §4 C12")
 
+chk("C16", "exploration", "E2-boundary-enumerator",
+    "exhaustive enumeration of {below, at, above} inputs for every narrowing site and their pairwise combinations, exact-integer oracle on the parsed output",
+    "For each fixed-width field the muxer writes, histories are constructed that put the derived value just below, at and just above the field boundary (decode-time gaps and cumulative durations around 2^31/2^32, composition offsets around 2^31, parameter sets and dimensions around 2^16, sample rates around 2^16, timestamps near 2^53, fragmented gaps/offsets), in combination with the neighbouring sites. The crossing call must return an error or every decoded field must equal the exact integer recomputed from the history.",
+    READER + " Descriptor lengths near 2^8 and box sizes near 2^32 are unreachable and not claimed.", "DESIGN.md §4 C16")
+
 NOT_YET = {
 }
 
